@@ -211,7 +211,34 @@ class CHECK(Check):
         if case["enc"] != "str":
             out["meanpred"] = call(fm.mean_prediction, yt, yp, sample_weight=w)
         out["count"] = call(fm.count, yt, yp)
+        # shapes: the helper on arrays of several shapes, and selection_rate / mean_prediction on column-shaped arguments
+        from fairlearn.utils._input_manipulations import _convert_to_ndarray_and_squeeze as squeeze
+        n = len(case["yt"])
+        for sh in self._shapes(case):
+            try:
+                out["sq:" + proto.lst(sh)] = ["shape", [int(d) for d in squeeze(np.zeros(sh)).shape]]
+            except Exception as e:  # noqa: BLE001
+                out["sq:" + proto.lst(sh)] = ["exc", type(e).__name__, str(e)[:60]]
+        for tag, sh in (("vec", [n]), ("col", [n, 1])):
+            wr = None if w is None else w.reshape(sh)
+            out[f"selrate:{tag}"] = call(fm.selection_rate, yt, yp.reshape(sh), pos_label=sp, sample_weight=wr)
+            if case["enc"] != "str":
+                out[f"meanpred:{tag}"] = call(fm.mean_prediction, yt, yp.reshape(sh), sample_weight=wr)
         return out
+
+    def _shapes(self, case):
+        """array shapes for the helper, derived from the case content (the generator's rng stream is not touched)"""
+        n = len(case["yt"])
+        k = sum(1 for a, b in zip(case["yt"], case["yp"]) if a == b) % 3
+        return [[n], [n, 1], [1, n], [1, 1, n], [n, 1, k], [k, n], [0], [], [1, 1], [1, k + 1, 1]]
+
+    def _shape_keys(self, case):
+        keys = ["sq:" + proto.lst(sh) for sh in self._shapes(case)]
+        for tag in ("vec", "col"):
+            keys.append(f"selrate:{tag}")
+            if case["enc"] != "str":
+                keys.append(f"meanpred:{tag}")
+        return keys
 
     def _w(self, case):
         n = len(case["yt"])
@@ -240,6 +267,15 @@ class CHECK(Check):
         if case["enc"] != "str":
             ls.append(f"bms.meanpred {yt} {yp} {wn}")
         ls.append(f"bms.count {yt} {yp}")
+        # the shape-level translation (Generated/SqueezeSrc.lean), same order as _shape_keys
+        n = len(case["yt"])
+        for sh in self._shapes(case):
+            ls.append(f"nds.squeeze {proto.lst(sh)}")
+        for sh in ([n], [n, 1]):
+            ws = "none" if case["w"] is None else proto.lst(sh)
+            ls.append(f"nds.selrate {proto.lst(sh)} {ws}")
+            if case["enc"] != "str":
+                ls.append(f"nds.meanpred {proto.lst(sh)} {ws}")
         return ls
 
     # ---------------------------------------------------------------- judging
@@ -306,6 +342,44 @@ class CHECK(Check):
                                                  "C14.source_translation"))
                 else:
                     probs.append(Problem("harness", f"driver returned {len(mo)} lines for {2 * len(keys)}"))
+        # -- shapes: "returned as a scalar" for column-shaped arguments too; the shape model against numpy / fairlearn
+        skeys = self._shape_keys(case)
+        for j, k in enumerate(skeys):
+            got = o.get(k)
+            if got is None:
+                probs.append(Problem("correspondence", f"{k}: no implementation output", "impl-total"))
+                continue
+            if not k.startswith("sq:"):
+                if got[0] == "exc":
+                    probs.append(Problem("property", f"{k}: valid input (arguments of shape {'(n,1)' if k.endswith('col') else '(n,)'}) "
+                                         f"raised {got}", "C14.accepts"))
+                elif got[0] != "scalar":
+                    probs.append(Problem("property", f"{k}: result is not a scalar: {got}", "C14.scalar_result"))
+                elif far(got[1], float(spec[k.split(":")[0]])):
+                    probs.append(Problem("property", f"{k}: got {got[1]!r}, first-principles value {spec[k.split(':')[0]]}", "C14.value"))
+            elif got[0] == "shape" and len(got[1]) == 0:
+                probs.append(Problem("property", f"{k}: _convert_to_ndarray_and_squeeze returned a 0-d array", "C14.scalar_result"))
+            if mo is not None and len(mo) >= 2 * len(keys) + len(skeys):
+                ms = mo[2 * len(keys) + j]
+                if ms == "bad-op":
+                    probs.append(Problem("harness", f"{k}: driver rejected the nds line"))
+                elif ms == "err:unmodelled":
+                    continue
+                elif ms.startswith("err:"):
+                    want_exc = {"err:type": "TypeError", "err:value": "ValueError"}[ms]
+                    if got[0] != "exc" or got[1] != want_exc:
+                        probs.append(Problem("correspondence", f"{k}: implementation {got} vs shape model {ms}", "C14.shape_model"))
+                else:
+                    shape = [] if ms == "-" else [int(t) for t in ms.split(",")]
+                    if k.startswith("sq:"):
+                        ok = got[0] == "shape" and got[1] == shape
+                    else:
+                        ok = (got[0] == "scalar") if shape == [] else (got[0] == "array" + str(tuple(shape)))
+                    if not ok:
+                        probs.append(Problem("correspondence", f"{k}: implementation {got} vs shape model {ms}", "C14.shape_model"))
+            elif mo is not None:
+                probs.append(Problem("harness", f"driver returned {len(mo)} lines for {2 * len(keys) + len(skeys)}"))
+                break
         # relations between the impl's own outputs (the property's clauses)
         def val(k):
             g = o.get(k)
